@@ -5,7 +5,9 @@ import (
 	"fmt"
 	"math/big"
 	"math/rand"
+	"os"
 	"runtime"
+	"runtime/debug"
 	"sync"
 	"sync/atomic"
 
@@ -87,6 +89,9 @@ func (p *readerPool) loop(rnd *rand.Rand) {
 func (p *readerPool) one(kind string, rnd *rand.Rand) {
 	defer func() {
 		if r := recover(); r != nil {
+			if os.Getenv("VERIF_DEBUG_PANIC") != "" {
+				fmt.Fprintf(os.Stderr, "READER PANIC %s: %v\n%s\n", kind, r, debug.Stack())
+			}
 			p.mu.Lock()
 			if len(p.panics) < 5 {
 				p.panics = append(p.panics, fmt.Sprintf("query %s: %v", kind, r))
